@@ -426,7 +426,7 @@ def bounds_item(tid, total, n, meta, ranges):
     for a, b in ranges:
         o, d, ln = params.bounds(total, a, b, n, meta)
         grp.append({"a": a, "b": b, "s": _limbs(o), "n": _limbs(d), "ln": _limbs(ln)})
-    return {"id": tid, "kind": "bnd", "N": n, "lpd": 2 if meta else 1, "total": _limbs(total), "per": per, "grp": grp, "small": total * n * 4 < 2**31, "case": {"total": str(total), "N": n, "meta": meta, "ranges": ranges}}
+    return {"id": tid, "kind": "bnd", "N": n, "lpd": 2 if meta else 1, "total": _limbs(total), "per": per, "grp": grp, "small": total < BASE and total * n * 4 < 2**31, "case": {"total": str(total), "N": n, "meta": meta, "ranges": ranges}}
 
 
 def bounds_items(seed, count, prefix):
